@@ -325,7 +325,7 @@ func init() {
 	fw.Register(&fw.Prop{
 		ID:          "C17",
 		Level:       "exploration",
-		Rule:        "alphabet {a b * ? . + ( | $} (thorough adds ) ^ { }): ALL patterns of length <=4 x ALL keys of length <=4 (thorough: patterns <=4 x keys <=5 over 13 symbols, and the property's full product patterns <=5 x keys <=5 over the 9-symbol alphabet) compared with a recursive reference matcher; and, through the real server over the example store holding all keys of length <=2, KEYS p, SCAN 0 MATCH p COUNT 1000 and complete SCAN iterations (cursor followed until 0) with COUNT 1, 2 and 7 for every pattern of length <=3 against the reference selection (each key once, the iteration ends). evaluations counts (pattern,key) matches; non-trivial = patterns containing a regular-expression metacharacter.",
+		Rule:        "alphabet {a b * ? . + ( | $} (thorough adds ) ^ { }): ALL patterns of length <=4 x ALL keys of length <=4 (thorough: patterns <=4 x keys <=5 over 13 symbols, and the property's full product patterns <=5 x keys <=5 over the 9-symbol alphabet) compared with a recursive reference matcher; and, through the real server over the example store holding all keys of length <=2, KEYS p, SCAN 0 MATCH p COUNT 1000 and complete SCAN iterations (cursor followed until 0) with COUNT 1, 2 and 7 for every pattern of length <=3 against the reference selection (each key once, the iteration ends). evaluations counts (pattern,key) matches; non-trivial = patterns containing a regular-expression metacharacter. History part: 10 base patterns compiled again after d = 2^k-1, 2^k, 2^k+1 (k<=10) other patterns. Concurrent part: 49 ordered pairs of patterns compiled and matched by two goroutines with every loop iteration of the glob package a scheduling point, every schedule within deviation bound 2 (thorough 3).",
 		Assumptions: []string{"'[', ']' and '\\' are not in the alphabet (Redis gives them a meaning the statement does not fix)", "random longer patterns are not claimed; the full <=5 x <=5 product is enumerated in the thorough tier only"},
 		Run:         c17Run,
 		Replay:      c17Replay,
